@@ -19,6 +19,8 @@ Template directives (all start with //@ at the beginning of a line):
        //@after /REGEX/             following lines inserted after the (single) body line matching REGEX
        //@before /REGEX/            following lines inserted before the (single) body line matching REGEX
        //@no-twin                   no vacuity twin (trait-impl methods cannot get one: the contract is on the trait)
+       //@prologue                  following lines inserted at the top of the fn body (used with //@sig to re-bind
+                                    pattern parameters, which Verus does not accept in signatures)
        //@keep-panics               do not apply R12 in this block
        //@keep-minmax               do not apply R11 in this block (receiver is not an integer)
   //@end
@@ -240,7 +242,7 @@ def process_block(kind, header, dirs, report):
             use_sig, n = re.subn(r'^\s*pub(\([^)]*\))?\s+', '', use_sig); entry['rewrites']['R1 visibility dropped'] = n
             # name the result
             mm = re.search(r'->\s*(.+?)\s*(where\b.*)?$', use_sig, flags=re.S)
-            if mm and not mm.group(1).startswith('('):
+            if mm and not re.match(r'\(\s*\w+\s*:', mm.group(1)):
                 use_sig = use_sig[:mm.start()] + '-> (r: ' + mm.group(1).strip() + ')' + (' ' + mm.group(2) if mm.group(2) else '')
                 entry['rewrites']['SIG result named r'] = 1
         if newname:
@@ -275,6 +277,10 @@ def process_block(kind, header, dirs, report):
             raise AnchorError(f'subst /{mm.group(1)}/ matched nothing in {entry["anchor"]}')
         entry['rewrites'][f'R3/subst /{mm.group(1)}/ => {mm.group(2)}'] = n
     body = insert_hints(body, hints, entry)
+    prologue = ''.join(d[2] for d in dirs if d[0] == 'prologue')
+    if prologue and kind == 'fn':
+        body = body[0] + '\n' + prologue + body[1:]
+        entry['rewrites']['SIG pattern parameters bound by a prologue `let`'] = 1
     body, nloops = attach_loops(body, loops, entry)
     entry['loops'] = nloops
     entry['loops_with_contract'] = sorted(loops)
@@ -349,7 +355,7 @@ def generate(template_path):
                     key, arg = d.group(1), d.group(2)
                     if key in ('sig', 'subst', 'keep-panics', 'keep-minmax', 'no-twin'):
                         dirs.append([key, arg]); cur = None
-                    elif key in ('contract', 'loop', 'after', 'before'):
+                    elif key in ('contract', 'loop', 'after', 'before', 'prologue'):
                         cur = [key, arg, '']
                         dirs.append(cur)
                     else:
